@@ -50,9 +50,9 @@ def m_instances(ctx):
 def r_instances(ctx):
     f = dict(syms=["A"], qtys=[1], prices=[8, 12], lev=2, fee=(1, 16), start=30, maxact=3, dups=True, coc=True)
     s = dict(syms=["A"], qtys=[1], prices=[8, 12], fee=(1, 16), start=30, maxact=3, dups=True, coc=False)
-    q = [("futures", dict(f, depth=4, maxord=3)), ("spot", dict(s, coc=True, depth=4, maxord=3))]
-    t = [("futures", dict(f, depth=5, maxord=3)), ("spot", dict(s, depth=5, maxord=3)),
-         ("spot", dict(s, coc=True, depth=5, maxord=3))]
+    q = [("futures", dict(f, prices=[8], depth=5, maxord=2)), ("spot", dict(s, coc=True, prices=[8], depth=4, maxord=3))]
+    t = [("futures", dict(f, depth=5, maxord=2)), ("futures", dict(f, prices=[8], depth=5, maxord=3)),
+         ("spot", dict(s, depth=5, maxord=2)), ("spot", dict(s, coc=True, prices=[8], depth=5, maxord=3))]
     return ctx.pick(q, t)
 
 
@@ -90,7 +90,7 @@ def run(ctx):
         for k2, inst in r_instances(ctx):
             if k2 != kind:
                 continue
-            edges, r = acct.export_edges(kind, dict(inst), workers=1, timeout=900)
+            edges, r = acct.export_edges(kind, dict(inst), workers=1, timeout=900, view="ViewFull")
             ctx.log("R %s: %d transitions exported (%d distinct states)" % (kind, len(edges), r.distinct))
             trs = acct.replay_edges(kind, inst, edges, first_id=tid + 1)
             for t, e in zip(trs, edges):
